@@ -338,6 +338,9 @@ def main():
             bk[oracle] = bk.get(oracle, 0) + 1
             if agree == "A":
                 totals["agree"] += 1
+            elif agree == "D" and ((P.get("disagree_only_prefix") and not detail.startswith(P["disagree_only_prefix"]))
+                                   or (P.get("foreign_prefix") and detail.startswith(P["foreign_prefix"]))):
+                totals["other_property_disagreements"] = totals.get("other_property_disagreements", 0) + 1
             elif agree == "D":
                 totals["disagree"] += 1
                 disagreements.append((fam, tag, idx, kind, group, detail))
@@ -348,6 +351,8 @@ def main():
                 oracle = "ok"   # another property's oracle; this check is about the prefix class only
             if oracle == "VIOL" and P.get("viol_exclude_prefix") and detail.startswith(P["viol_exclude_prefix"]):
                 oracle = "na"
+            if oracle == "VIOL" and P.get("foreign_prefix") and detail.startswith(P["foreign_prefix"]):
+                oracle = "na"   # belongs to another property (e.g. a report file that is not rewritten whole: C18)
             if oracle == "ok":
                 totals["oracle_ok"] += 1
             elif oracle == "VIOL":
